@@ -767,7 +767,7 @@ def _py_oracle(c, impl):
     return None
 
 
-def harness_trouble(c, i):
+def is_trouble(c, i):
     """a loopback I/O error or time-out inside a history is harness trouble, not an outcome of the code"""
     return re.search(r"\(L \(N 93\)", i) is not None or re.match(r"\(L \(N 96\) \((N|B) ", i) is not None
 
